@@ -121,7 +121,18 @@ def dict_to_result(w):
 def make_da(init):
     outs, cues = init['outcomes'], init['cues']
     vals = np.array([fl(v) for v in init['vals']], dtype=np.float64).reshape((len(outs), len(cues)))
-    return xr.DataArray(vals, [('outcomes', outs), ('cues', cues)], attrs=dict(init.get('attrs', {})))
+    layout = init.get('layout', 'c')
+    attrs = dict(init.get('attrs', {}))
+    if layout == 'f':
+        vals = np.asfortranarray(vals)
+    elif layout == 'transposed':
+        return xr.DataArray(np.ascontiguousarray(vals.T), [('cues', cues), ('outcomes', outs)], attrs=attrs).T
+    elif layout == 'slice':
+        big = np.full((len(outs) + 2, len(cues) + 3), 7.25)
+        big[1:-1, 2:-1] = vals
+        da = xr.DataArray(big, [('outcomes', ['PAD0'] + outs + ['PAD1']), ('cues', ['P0', 'P1'] + cues + ['P2'])], attrs=attrs)
+        return da.isel(outcomes=slice(1, len(outs) + 1), cues=slice(2, len(cues) + 2))
+    return xr.DataArray(vals, [('outcomes', outs), ('cues', cues)], attrs=attrs)
 
 
 def make_wd(cells):
